@@ -82,6 +82,21 @@ def copy_env(func_node):
             banned.add(node.name)
         for sub in ast.walk(node) if isinstance(node, ast.expr) else []:
             pass
+        # a local that is mutated in place is not a value to propagate
+        if isinstance(node, (ast.Subscript, ast.Attribute)) and \
+                isinstance(node.ctx, (ast.Store, ast.Del)):
+            base = node.value
+            while isinstance(base, (ast.Subscript, ast.Attribute)):
+                base = base.value
+            if isinstance(base, ast.Name):
+                banned.add(base.id)
+        if isinstance(node, ast.Call) and isinstance(
+                node.func, ast.Attribute) and node.func.attr in (
+                    'append', 'extend', 'add', 'update', 'pop', 'remove',
+                    'discard', 'clear', 'insert', 'setdefault', 'popitem',
+                    'sort', 'reverse', 'appendleft', 'popleft') and \
+                isinstance(node.func.value, ast.Name):
+            banned.add(node.func.value.id)
         for child in ast.iter_child_nodes(node):
             if isinstance(child, (ast.comprehension,)):
                 for leaf in ast.walk(child.target):
